@@ -266,7 +266,7 @@ def gen_ops(rng, n, weights=None, pool_uids=0):
     """Abstract operations; targets are indices resolved against the live tree at run time."""
     w = {"create_group": 3, "create_object": 5, "add_data": 7, "rename": 2, "flag": 2, "set_values": 3,
          "set_geometry": 2, "move": 3, "remove_ws": 3, "remove_parent": 2, "copy": 3, "pg_add": 3, "pg_remove": 1,
-         "reopen": 2, "gc": 1}
+         "reopen": 2, "gc": 1, "protect": 1}
     w.update(weights or {})
     kinds = [k for k, c in w.items() for _ in range(c)]
     ops = []
@@ -429,6 +429,15 @@ class Session:
             self.events.append(f"set {attr} of {self.uids.num(e.uid)} = {val}")
             self.record({"o": "setAttr", "u": self.uids.num(e.uid), "key": key, "tok": tok(val)}, "ok")
             return
+        if k == "protect":
+            e = self.pick(ents, op["a"], not_root)
+            if e is None:
+                return
+            val = bool(op["b"] % 4 == 0)        # mostly switch the permission off, sometimes back on
+            e.allow_delete = val
+            self.events.append(f"protect {self.uids.num(e.uid)} allow_delete={val}")
+            self.record({"o": "setAllowDelete", "u": self.uids.num(e.uid), "b": val}, "ok")
+            return
         if k == "set_values":
             e = self.pick(ents, op["a"], lambda x: is_data(x) and isinstance(getattr(x, "values", None), np.ndarray)
                           and x.values.dtype.kind == "f")
@@ -475,10 +484,14 @@ class Session:
             e = self.pick(ents, op["a"], not_root)
             if e is None:
                 return
+            if op["c"] % 4 != 0:
+                # most removals aim at an entity whose delete permission is off
+                prot = [x for x in ents if not_root(x) and not x.allow_delete]
+                if prot:
+                    e = prot[op["a"] % len(prot)]
+                del prot
             n = self.uids.num(e.uid)
-            if op["b"] % 7 == 0 and k == "remove_ws":
-                e.allow_delete = False
-                self.record({"o": "setAllowDelete", "u": n, "b": False}, "ok")
+            was_protected = not bool(e.allow_delete)
             sub_tree = api_tree(self.uids, e)
             sub = tree_uids(sub_tree)
 
@@ -500,6 +513,9 @@ class Session:
                     self.failures.append(("refused removal changed the workspace", "C05:refused-removal-has-effects"))
             del e, ents
             gc.collect()
+            if k == "remove_ws" and was_protected and status == "ok":
+                self.failures.append((f"workspace.remove_entity removed entity {n} although its delete permission is off",
+                                      "C05:remove_ws:protected-entity-removed"))
             self.events.append(f"{k} {n} -> {status}")
             self.record({"o": "remove" if k == "remove_ws" else "detach", "u": n}, status)
             if status == "ok":
